@@ -7,7 +7,7 @@
 -/
 import ArtVerif.Gen.LcpOps
 import ArtVerif.Model.RIter
-import ArtVerif.Proofs.GenNodeOps
+import ArtVerif.Proofs.GoNodeBase
 namespace ArtVerif
 namespace GenLcp
 open Gen Gen.LcpOps GoNode GenNodeOps
